@@ -5,13 +5,13 @@ import (
 	"context"
 	"crypto/sha256"
 	"fmt"
-	"os"
 	"strings"
 	"sync"
 
 	codectypes "github.com/cosmos/cosmos-sdk/codec/types"
 	sdk "github.com/cosmos/cosmos-sdk/types"
 	txtypes "github.com/cosmos/cosmos-sdk/types/tx"
+	authztypes "github.com/cosmos/cosmos-sdk/x/authz"
 	"github.com/cosmos/cosmos-sdk/types/tx/signing"
 	"github.com/cosmos/cosmos-sdk/x/auth/migrations/legacytx"
 	authsigning "github.com/cosmos/cosmos-sdk/x/auth/signing"
@@ -492,9 +492,6 @@ func (e *docEnv) checkDoc(i int) {
 			default:
 				run.Count("doc.txconfig-signbytes-differ:"+fm.f, 1)
 				run.Distinct("txconfig_differ_kinds", fm.f+":"+strings.Join(d.Kinds, "+"))
-				if os.Getenv("C19_DEBUG") != "" && len(d.Msgs) == 1 {
-					fmt.Printf("DIFF %s\n mine  =%s\n theirs=%s\n", d.Kinds, mine, theirs)
-				}
 			}
 		}
 	}
@@ -528,7 +525,7 @@ func (e *docEnv) checkDoc(i int) {
 		rawByFmt[fi] = rawA
 		run.Count("doc.base-accepted:"+format, 1)
 		if ok, first := e.idx.put(rawA, d.identity(), i); !ok {
-			run.Violation("eip712-hash-collision:global", label, map[string]any{"format": format, "doc": d.describe(), "typed_bytes": short(rawA), "first_seen_in_case": fmt.Sprintf("doc/%d", first),
+			viol(run, "eip712-hash-collision:global", label, map[string]any{"format": format, "doc": d.describe(), "typed_bytes": short(rawA), "first_seen_in_case": fmt.Sprintf("doc/%d", first),
 				"note": "another document with a different identity (listed fields) produced the same typed-data bytes earlier in this run"})
 		}
 		sig712, err := priv.Sign(ethcrypto.Keccak256(rawA))
@@ -541,15 +538,15 @@ func (e *docEnv) checkDoc(i int) {
 		}
 		// positive direction
 		if !e.verify(pub, bzA, sig712) {
-			run.Violation("eip712-signature-rejected-for-own-doc:"+format, label, map[string]any{"doc": d.describe(), "sign_bytes": short(bzA), "typed_bytes": short(rawA), "sig": short(sig712), "pub": short(pub.Key)})
+			viol(run, "eip712-signature-rejected-for-own-doc:"+format, label, map[string]any{"doc": d.describe(), "sign_bytes": short(bzA), "typed_bytes": short(rawA), "sig": short(sig712), "pub": short(pub.Key)})
 		}
 		if !e.verify(pub, bzA, sigDirect) {
-			run.Violation("direct-signature-rejected-for-own-doc:"+format, label, map[string]any{"doc": d.describe(), "sign_bytes": short(bzA), "sig": short(sigDirect), "pub": short(pub.Key)})
+			viol(run, "direct-signature-rejected-for-own-doc:"+format, label, map[string]any{"doc": d.describe(), "sign_bytes": short(bzA), "sig": short(sigDirect), "pub": short(pub.Key)})
 		}
 		run.Count("doc.positive-verified:"+format, 2)
 		// another key
 		if e.verify(other, bzA, sig712) || e.verify(other, bzA, sigDirect) {
-			run.Violation("eip712-signature-verifies-under-other-key", label, map[string]any{"doc": d.describe(), "sig": short(sig712), "signer_pub": short(pub.Key), "other_pub": short(other.Key)})
+			viol(run, "eip712-signature-verifies-under-other-key", label, map[string]any{"doc": d.describe(), "sig": short(sig712), "signer_pub": short(pub.Key), "other_pub": short(other.Key)})
 		}
 		run.Count("doc.other-key-rejected:"+format, 1)
 		if i < 2 && fi == 0 {
@@ -588,7 +585,7 @@ func (e *docEnv) checkDoc(i int) {
 				if p.unlisted {
 					run.Count("doc.unlisted-field-same-hash:"+format+":"+p.class, 1)
 				} else {
-					run.Violation("eip712-hash-collision:"+p.class, label, witness(map[string]any{"typed_bytes_B": short(rawB)}))
+					viol(run, "eip712-hash-collision:"+p.class, label, witness(map[string]any{"typed_bytes_B": short(rawB)}))
 				}
 			default:
 				run.Count("doc.hash-differs:"+format+":"+p.group, 1)
@@ -598,7 +595,7 @@ func (e *docEnv) checkDoc(i int) {
 				}
 				if !p.unlisted {
 					if ok, first := e.idx.put(rawB, p.doc.identity(), i); !ok {
-						run.Violation("eip712-hash-collision:global", label, witness(map[string]any{"typed_bytes_B": short(rawB), "first_seen_in_case": fmt.Sprintf("doc/%d", first),
+						viol(run, "eip712-hash-collision:global", label, witness(map[string]any{"typed_bytes_B": short(rawB), "first_seen_in_case": fmt.Sprintf("doc/%d", first),
 							"note": "perturbed document B collides with a document of different identity seen earlier in this run"}))
 					}
 				}
@@ -607,14 +604,14 @@ func (e *docEnv) checkDoc(i int) {
 				if p.unlisted {
 					run.Count("doc.unlisted-field-signature-still-verifies:"+format+":"+p.class, 1)
 				} else {
-					run.Violation("eip712-signature-verifies-for-other-doc:"+p.class, label, witness(map[string]any{"sig_over_typed_A": short(sig712)}))
+					viol(run, "eip712-signature-verifies-for-other-doc:"+p.class, label, witness(map[string]any{"sig_over_typed_A": short(sig712)}))
 				}
 			} else {
 				run.Count("doc.sig712-rejected-for-perturbed:"+format+":"+p.group, 1)
 			}
 			if (pi+i)%4 == 0 { // the plain-signature leg on a quarter of the perturbations (it costs a third of the work)
 				if e.verify(pub, bzB, sigDirect) {
-					run.Violation("direct-signature-verifies-for-other-doc:"+p.class, label, witness(map[string]any{"sig_over_sign_bytes_A": short(sigDirect)}))
+					viol(run, "direct-signature-verifies-for-other-doc:"+p.class, label, witness(map[string]any{"sig_over_sign_bytes_A": short(sigDirect)}))
 				} else {
 					run.Count("doc.sigdirect-rejected-for-perturbed:"+format, 1)
 				}
@@ -636,6 +633,38 @@ func (e *docEnv) checkDoc(i int) {
 		} else {
 			run.Count("doc.amino-and-amino-x/tx-typed-data-differ", 1)
 		}
+	}
+}
+
+// probes: fixed malformed documents, informational. A legacy-amino document whose MsgExec holds a
+// nested Any that was never unpacked renders as "msgs":[null]; decoding it inside the EIP-712
+// fallback of VerifySignature dereferences nil (the panic escapes VerifySignature).
+func (e *docEnv) probes() {
+	run := e.run
+	if run.OnlyCase != "" {
+		return
+	}
+	r := run.RNG("probe", 0)
+	priv := genPriv(r)
+	pub := priv.PubKey().(*ethsecp256k1.PubKey)
+	inner := mustAny(genSend(r, genAddrBytes(r)))
+	d := &doc{ChainID: vh.ChainID, AccNum: 1, Seq: 1, Fee: sdk.Coins{}, Gas: 1, Kinds: []string{"authz.MsgExec"},
+		Msgs: []sdk.Msg{&authztypes.MsgExec{Grantee: accStr(pub.Address()), Msgs: []*codectypes.Any{{TypeUrl: inner.TypeUrl, Value: inner.Value}}}}}
+	bz, err := e.render(d, fmtAmino, pub)
+	if err != nil {
+		run.Count("probe.null-nested-any:not-renderable", 1)
+		return
+	}
+	before := run.Get("doc.info-panic-escaping-VerifySignature")
+	ok := e.verify(pub, bz, make([]byte, 65))
+	switch {
+	case run.Get("doc.info-panic-escaping-VerifySignature") > before:
+		run.Count("probe.null-nested-any:VerifySignature-panics(info)", 1)
+		run.Set("probe_null_nested_any_sign_doc", trunc(string(bz), 400))
+	case ok:
+		viol(run, "degenerate-signature-verifies:zero65-on-malformed-doc", "probe/0", map[string]any{"sign_doc": string(bz)})
+	default:
+		run.Count("probe.null-nested-any:rejected-without-panic", 1)
 	}
 }
 
